@@ -156,6 +156,19 @@ def run_shard(desc):
                     if mult >= 4 or len(cands) >= 2:
                         sh.nontrivial += 1
                     sh.outcomes.add((len(cands) if len(cands) < 6 else 6, crange))
+                # the same two reflections presented in the other ring order, on the same unitcell object (its pair cache
+                # must keep the two orders apart)
+                if r1 != r2:
+                    uc.orient(r2, g2, r1, g1, crange=1e-6)
+                    cands = list(uc.UBIlist)
+                    cc = dict(case, crange=1e-6, order="ring2-first")
+                    if not cands or any(check_candidate(u, cell, g1, g2, need_integer=False) for u in cands):
+                        sh.violation("orient[reversed ring order]:bad-candidate", cc, {"n": len(cands)})
+                    elif not any(O.lattice_equivalent(u, ubi_true) for u in cands):
+                        sh.violation("orient[reversed ring order]:true-orientation-not-among-candidates", cc, {"n_candidates": len(cands)})
+                    sh.evaluations += 1
+                    if mult >= 4:
+                        sh.nontrivial += 1
                 # default nearest-cosine mode
                 uc.orient(r1, g1, r2, g2)
                 bad = check_candidate(uc.UBI, cell, g1, g2)
